@@ -220,7 +220,7 @@ def binding_demo(ctx, binp):
     v = list(run)
     v.insert(len(v) // 2, {"e": "QW", "cls": "state", "t": 0})
     variants["query-writes"] = v
-    if len(variants) < 4:
+    if len(variants) < 6:
         raise Infra("binding demo: recorded run too poor to build the corrupted variants (%s)" % sorted(variants))
     for name, evs in variants.items():
         accepted, hwm, ln, r = ctx.validate_trace("store", "Trace_Publish", _write(ctx, "demo-" + name, [cfg] + evs), timeout=300)
@@ -309,7 +309,7 @@ def race_byproduct(ctx):
     q = ctx.quick
     out = ctx.tmp("race")
     argv = [binp, "-out", out, "-seed", str(ctx.seed + 5), "-streams", "2" if q else "4", "-runs", "1" if q else "3", "-blocks", "16" if q else "30",
-            "-traceruns", "1", "-batch", "60"]
+            "-traceruns", "1", "-batch", "60", "-nostamp"]     # no shared stamp counter: it would order the accesses for the detector
     rc, o = ctx.run(argv, timeout=1500, env={"GORACE": "halt_on_error=0 history_size=6"})
     reports = RACE_RE.findall(o)
     info = {"reports": len(reports), "exit": rc, "runs": 0, "unclassified": 0, "by_signature": {}}
